@@ -129,6 +129,12 @@ class Model:
             if c.op == "binop" and c.args[0] == "|":
                 stack.extend(c.args[1:])
                 continue
+            if c.op == "cmp" and c.args[0] in ("==", "!=") and c.args[2] in (self.fields.get("null"), T("sub", tm.param("return_missing_as"), tm.const(0)), tm.param("return_missing_as")):
+                p = self.pos_of(c.args[1])
+                if p is None:
+                    return None
+                atoms.append(("eqnull" if c.args[0] == "==" else "nenull", p, c.args[1]))
+                continue
             if c.op == "cmp" and c.args[0] in ("==", "!=", "<", "<=") and c.args[2].op == "const":
                 p = self.pos_of(c.args[1])
                 k = c.args[2].args[1]
